@@ -54,7 +54,7 @@ Proof.
   unfold byte_at.
   destruct (nth_N_some buf (bin_syl_offset + 2 * byte_or0 buf bin_len_offset + 1)) as [x Hx].
   { rewrite Hlen. exact Hlt. }
-  rewrite Hx. destruct x; [discriminate|].
+  rewrite Hx. destruct (x =? 0); [discriminate|].
   destruct (bin_syls _ _ _); [|discriminate].
   destruct (BIN_FIELD_SIZE <? _); [discriminate|].
   destruct (utf8_ok _); discriminate.
@@ -141,3 +141,732 @@ Lemma load_text_pinned_refuted :
   exists lt rs, c_int_ok lt = true /\ forallb lrec_wf rs = true /\ forallb lrec_text_ok rs = true /\
                 load_text_pinned (print_text lt rs) = Err E_INVALID_DATA.
 Proof. exists 70000%Z, [golden_rec]. vm_compute. repeat split; reflexivity. Qed.
+
+(* ------------------------------------------------------------------ *)
+(* decimal printer / parser *)
+
+Lemma parse_digits_snoc l d a :
+  parse_digits (l ++ [d]) a =
+  match parse_digits l a with
+  | Some v => if is_digit d then Some (v * 10 + (d - 48)) else None
+  | None => None
+  end.
+Proof.
+  revert a. induction l as [|b l IH]; intros a; cbn [app parse_digits].
+  - destruct (is_digit d); reflexivity.
+  - destruct (is_digit b); [apply IH | reflexivity].
+Qed.
+
+Lemma is_digit_dec r : r < 10 -> is_digit (48 + r) = true.
+Proof.
+  intros H. unfold is_digit. apply andb_true_iff. split; [apply N.leb_le | apply N.leb_le]; lia.
+Qed.
+
+Lemma dec_rev_parse fuel : forall n, n < 2 ^ N.of_nat fuel ->
+  parse_digits (rev (dec_rev fuel n)) 0 = Some n.
+Proof.
+  induction fuel as [|k IH]; intros n Hn.
+  - cbn in Hn. assert (n = 0) by lia. subst. reflexivity.
+  - cbn [dec_rev rev]. rewrite parse_digits_snoc.
+    assert (Hm : n mod 10 < 10) by (apply N.mod_lt; lia).
+    rewrite (is_digit_dec _ Hm).
+    destruct (N.ltb_spec n 10) as [Hlt|Hge].
+    + cbn [rev parse_digits]. f_equal. rewrite N.mod_small by exact Hlt. lia.
+    + rewrite IH.
+      * f_equal. pose proof (N.div_mod n 10). lia.
+      * rewrite Nat2N.inj_succ, N.pow_succ_r' in Hn.
+        apply N.div_lt_upper_bound; lia.
+Qed.
+
+Lemma dec_N_parse n : parse_digits (dec_N n) 0 = Some n.
+Proof.
+  unfold dec_N. apply dec_rev_parse.
+  rewrite Nat2N.inj_succ, N2Nat.id.
+  destruct n as [|p]; [cbn; lia|].
+  apply N.log2_spec. lia.
+Qed.
+
+Lemma dec_rev_digits fuel : forall n, Forall (fun b => is_digit b = true) (dec_rev fuel n).
+Proof.
+  induction fuel as [|k IH]; intros n; cbn [dec_rev]; constructor.
+  - apply is_digit_dec. apply N.mod_lt. lia.
+  - destruct (n <? 10); [constructor | apply IH].
+Qed.
+
+Lemma dec_N_digits n : Forall (fun b => is_digit b = true) (dec_N n).
+Proof. unfold dec_N. apply Forall_rev, dec_rev_digits. Qed.
+
+Lemma dec_N_nonempty n : dec_N n <> [].
+Proof.
+  unfold dec_N. cbn [dec_rev rev]. intros H. apply app_eq_nil in H as [_ H]. discriminate H.
+Qed.
+
+Lemma is_digit_range b : is_digit b = true -> 48 <= b <= 57.
+Proof. unfold is_digit. intros H. apply andb_true_iff in H as [H1 H2]. apply N.leb_le in H1, H2. lia. Qed.
+
+(* a type (signed?, bits) holds the non-negative value n *)
+Definition fits_nonneg (ty : bool * N) (n : N) : Prop :=
+  if fst ty then n < 2 ^ (snd ty - 1) else n < 2 ^ snd ty.
+
+Lemma parse_num_dec_N ty n : fits_nonneg ty n -> parse_num ty (dec_N n) = Some (false, n).
+Proof.
+  destruct ty as [sg bits]. unfold fits_nonneg, parse_num. cbn [fst snd]. intros Hfit.
+  pose proof (dec_N_parse n) as Hp. pose proof (dec_N_digits n) as Hd. pose proof (dec_N_nonempty n) as Hne.
+  destruct (dec_N n) as [|c t]; [contradiction|].
+  inversion Hd as [|c0 t0 Hc Ht]; subst. apply is_digit_range in Hc.
+  destruct (N.eqb_spec c 43) as [->|_]; [lia|].
+  destruct (N.eqb_spec c 45) as [->|_]; [lia|]. cbn [andb].
+  rewrite Hp. destruct sg.
+  - destruct (N.ltb_spec n (2 ^ (bits - 1))); [reflexivity | lia].
+  - destruct (N.ltb_spec n (2 ^ bits)); [reflexivity | lia].
+Qed.
+
+Lemma parse_col_dec_N ty n : fits_nonneg ty n -> parse_col ty (dec_N n) = Some n.
+Proof. intros H. unfold parse_col. rewrite (parse_num_dec_N ty n H). reflexivity. Qed.
+
+(* a type holds the integer z *)
+Definition fits_int (ty : bool * N) (z : Z) : Prop :=
+  if fst ty then (- Z.of_N (2 ^ (snd ty - 1)) <= z < Z.of_N (2 ^ (snd ty - 1)))%Z
+  else (0 <= z < Z.of_N (2 ^ snd ty))%Z.
+
+Lemma parse_num_dec_Z ty z : fits_int ty z -> parse_num ty (dec_Z z) <> None.
+Proof.
+  intros Hfit. destruct z as [|p|p].
+  - cbn [dec_Z Z.to_N]. rewrite parse_num_dec_N; [discriminate|].
+    destruct ty as [[|] bits]; unfold fits_int, fits_nonneg in *; cbn [fst snd] in *; lia.
+  - cbn [dec_Z Z.to_N]. rewrite parse_num_dec_N; [discriminate|].
+    destruct ty as [[|] bits]; unfold fits_int, fits_nonneg in *; cbn [fst snd] in *; lia.
+  - destruct ty as [sg bits]. unfold fits_int in Hfit. cbn [fst snd] in Hfit.
+    destruct sg; [|lia].
+    cbn [dec_Z]. unfold parse_num.
+    change (45 =? 43) with false. change (45 =? 45) with true. cbn [andb].
+    pose proof (dec_N_nonempty (N.pos p)) as Hne.
+    destruct (dec_N (N.pos p)) as [|c t] eqn:E; [contradiction|].
+    rewrite <- E, dec_N_parse.
+    destruct (N.leb_spec (N.pos p) (2 ^ (bits - 1))); [discriminate | lia].
+Qed.
+
+(* ASCII facts about the printed numbers *)
+Lemma digits_ascii l : Forall (fun b => is_digit b = true) l -> Forall (fun b => b < 128) l.
+Proof. apply Forall_impl. intros b H. apply is_digit_range in H. lia. Qed.
+
+Lemma digits_no_ws l : Forall (fun b => is_digit b = true) l -> Forall (fun b => is_ascii_ws b = false) l.
+Proof.
+  apply Forall_impl. intros b H. apply is_digit_range in H. unfold is_ascii_ws.
+  repeat match goal with |- context [?x =? ?y] => destruct (N.eqb_spec x y); [lia|] end. reflexivity.
+Qed.
+
+Lemma dec_Z_nonneg z : (0 <= z)%Z -> dec_Z z = dec_N (Z.to_N z).
+Proof. destruct z; [reflexivity | reflexivity | lia]. Qed.
+
+Lemma dec_Z_ascii z : Forall (fun b => b < 128) (dec_Z z).
+Proof.
+  destruct z; cbn [dec_Z]; try (apply digits_ascii, dec_N_digits).
+  constructor; [lia | apply digits_ascii, dec_N_digits].
+Qed.
+
+Lemma dec_N_no_nl n : ~ In 10 (dec_N n).
+Proof.
+  intros H. pose proof (dec_N_digits n) as Hd. rewrite Forall_forall in Hd.
+  apply Hd, is_digit_range in H. lia.
+Qed.
+
+Lemma dec_Z_no_nl z : ~ In 10 (dec_Z z).
+Proof.
+  destruct z; cbn [dec_Z]; try apply dec_N_no_nl.
+  intros [H|H]; [discriminate H | exact (dec_N_no_nl _ H)].
+Qed.
+
+(* ------------------------------------------------------------------ *)
+(* tokens and lines *)
+
+Definition ws_free (t : list N) : Prop := Forall (fun b => is_ascii_ws b = false) t.
+
+Lemma split_ws_token t : forall rest cur, ws_free t ->
+  split_ws (t ++ rest) cur = split_ws rest (rev t ++ cur).
+Proof.
+  induction t as [|b t IH]; intros rest cur H; [reflexivity|].
+  inversion H as [|b0 t0 Hb Ht]; subst.
+  cbn [app split_ws rev]. rewrite Hb. rewrite IH by exact Ht. now rewrite <- app_assoc.
+Qed.
+
+Lemma split_ws_tokens toks : forall cur,
+  cur <> [] -> Forall (fun t => t <> [] /\ ws_free t) toks ->
+  split_ws (flat_map (fun t => SP :: t) toks) cur = rev cur :: toks.
+Proof.
+  induction toks as [|t ts IH]; intros cur Hc H.
+  - cbn. destruct cur; [contradiction | reflexivity].
+  - inversion H as [|t0 ts0 [Hne Hws] Hts]; subst.
+    cbn [flat_map app]. cbn [split_ws]. change (is_ascii_ws SP) with true. cbn iota.
+    destruct cur as [|c cur']; [contradiction|].
+    rewrite split_ws_token by exact Hws. rewrite app_nil_r.
+    rewrite IH; [now rewrite rev_involutive| |exact Hts].
+    intros E. apply (f_equal (@rev N)) in E. rewrite rev_involutive in E. cbn in E. contradiction.
+Qed.
+
+Lemma split_ws_line t toks :
+  t <> [] -> ws_free t -> Forall (fun t => t <> [] /\ ws_free t) toks ->
+  split_ws (t ++ flat_map (fun t => SP :: t) toks) [] = t :: toks.
+Proof.
+  intros Hne Hws H. rewrite split_ws_token by exact Hws. rewrite app_nil_r.
+  rewrite split_ws_tokens; [now rewrite rev_involutive| |exact H].
+  intros E. apply (f_equal (@rev N)) in E. rewrite rev_involutive in E. cbn in E. contradiction.
+Qed.
+
+Lemma split_lines_line l : forall rest cur, ~ In 10 l ->
+  split_lines (l ++ 10 :: rest) cur = strip_cr_rev (rev l ++ cur) :: split_lines rest [].
+Proof.
+  induction l as [|b l IH]; intros rest cur H.
+  - cbn [app split_lines rev]. change (10 =? 10) with true. reflexivity.
+  - cbn [app split_lines rev].
+    destruct (N.eqb_spec b 10) as [->|_]; [exfalso; apply H; now left|].
+    rewrite IH by (intros Hi; apply H; now right). now rewrite <- app_assoc.
+Qed.
+
+(* a line that does not end in \r comes back unchanged *)
+Lemma strip_cr_rev_id l : last l 0 <> 13 -> strip_cr_rev (rev l) = l.
+Proof.
+  intros H. unfold strip_cr_rev.
+  destruct (rev l) as [|b r] eqn:E.
+  - apply (f_equal (@rev N)) in E. rewrite rev_involutive in E. now subst.
+  - apply (f_equal (@rev N)) in E. rewrite rev_involutive in E. cbn [rev] in E. subst l.
+    rewrite last_last in H. destruct (N.eqb_spec b 13) as [->|_]; [contradiction|].
+    cbn [rev]. reflexivity.
+Qed.
+
+Lemma split_lines_lines ls : 
+  Forall (fun l => ~ In 10 l /\ last l 0 <> 13) ls ->
+  split_lines (flat_map (fun l => l ++ [10]) ls) [] = ls.
+Proof.
+  induction ls as [|l ls IH]; intros H; [reflexivity|].
+  inversion H as [|l0 ls0 [Hnl Hcr] Hls]; subst.
+  cbn [flat_map]. rewrite <- app_assoc. cbn [app].
+  rewrite split_lines_line by exact Hnl. rewrite app_nil_r, strip_cr_rev_id by exact Hcr.
+  now rewrite IH.
+Qed.
+
+(* ------------------------------------------------------------------ *)
+(* text format: one record *)
+
+Definition rec_tokens (r : lrec) : list (list N) :=
+  map dec_N (lr_syls r) ++ [dec_Z (lr_user r); dec_Z (lr_time r); dec_Z (lr_max r); dec_Z (lr_orig r)].
+Definition text_line_of (r : lrec) : list N :=
+  lr_phrase r ++ flat_map (fun t => SP :: t) (rec_tokens r).
+
+Lemma flat_map_map {A B C} (f : B -> list C) (g : A -> B) l :
+  flat_map f (map g l) = flat_map (fun x => f (g x)) l.
+Proof. induction l as [|a l IH]; [reflexivity|]. cbn [map flat_map]. now rewrite IH. Qed.
+
+Lemma print_text_rec_eq r : print_text_rec r = text_line_of r ++ [NL].
+Proof.
+  unfold print_text_rec, text_line_of, rec_tokens.
+  rewrite flat_map_app, flat_map_map. cbn [flat_map].
+  repeat rewrite <- app_assoc. cbn [app]. repeat rewrite <- app_assoc. cbn [app]. reflexivity.
+Qed.
+
+Record lrec_wf_P (r : lrec) : Prop := {
+  wf_bytes : bytes_ok (lr_phrase r) = true;
+  wf_utf8 : utf8_ok (lr_phrase r) = true;
+  wf_nows : ws_free (lr_phrase r);
+  wf_nonempty : exists b t, lr_phrase r = b :: t /\ b <> 0;
+  wf_nchars : utf8_nchars (lr_phrase r) = len_N (lr_syls r);
+  wf_syls : Forall (fun s => 0 < s < 65536) (lr_syls r);
+  wf_size : bin_syl_offset + 2 * len_N (lr_syls r) + 1 + len_N (lr_phrase r) <= BIN_FIELD_SIZE;
+  wf_user : (-2147483648 <= lr_user r < 2147483648)%Z;
+  wf_time : (-2147483648 <= lr_time r < 2147483648)%Z;
+  wf_max : (-2147483648 <= lr_max r < 2147483648)%Z;
+  wf_orig : (-2147483648 <= lr_orig r < 2147483648)%Z
+}.
+
+Lemma c_int_ok_spec z : c_int_ok z = true -> (-2147483648 <= z < 2147483648)%Z.
+Proof. unfold c_int_ok. intros H. apply andb_true_iff in H as [H1 H2]. apply Z.leb_le in H1. apply Z.ltb_lt in H2. lia. Qed.
+
+Lemma lrec_wf_spec r : lrec_wf r = true -> lrec_wf_P r.
+Proof.
+  unfold lrec_wf. intros H. repeat (apply andb_true_iff in H as [H ?]).
+  constructor; try (apply c_int_ok_spec; assumption); try assumption.
+  - unfold ws_free. apply Forall_forall. intros b Hb.
+    match goal with Hf : forallb _ (lr_phrase r) = true |- _ => rewrite forallb_forall in Hf; specialize (Hf b Hb) end.
+    now apply negb_true_iff.
+  - destruct (lr_phrase r) as [|b t]; [discriminate|]. exists b, t. split; [reflexivity|].
+    match goal with Hb : negb (b =? 0) = true |- _ => apply negb_true_iff, N.eqb_neq in Hb; exact Hb end.
+  - now apply N.eqb_eq.
+  - apply Forall_forall. intros s Hs.
+    match goal with Hf : forallb _ (lr_syls r) = true |- _ => rewrite forallb_forall in Hf; specialize (Hf s Hs);
+      apply andb_true_iff in Hf as [Hf1 Hf2]; apply N.ltb_lt in Hf1, Hf2 end. lia.
+  - now apply N.leb_le.
+Qed.
+
+Record lrec_text_P (r : lrec) : Prop := {
+  tx_live : lr_deleted r = false;
+  tx_user : (0 <= lr_user r)%Z; tx_time : (0 <= lr_time r)%Z;
+  tx_max : (0 <= lr_max r)%Z; tx_orig : (0 <= lr_orig r)%Z
+}.
+Lemma lrec_text_ok_spec r : lrec_text_ok r = true -> lrec_text_P r.
+Proof.
+  unfold lrec_text_ok. intros H. repeat (apply andb_true_iff in H as [H ?]).
+  constructor; try (apply Z.leb_le; assumption). now apply negb_true_iff.
+Qed.
+
+(* the column types of the current source hold every non-negative C int / u16 *)
+Lemma column_types_wide :
+  (forall n, n < 65536 -> fits_nonneg text_syl_ty n) /\
+  (forall n, n < 2147483648 -> fits_nonneg text_freq_ty n /\ fits_nonneg text_time_ty n /\
+                               fits_nonneg text_maxfreq_ty n /\ fits_nonneg text_origfreq_ty n).
+Proof.
+  unfold fits_nonneg. cbn [text_syl_ty text_freq_ty text_time_ty text_maxfreq_ty text_origfreq_ty fst snd].
+  split; [intros n H | intros n H; repeat split];
+    match goal with |- _ < 2 ^ ?k => let v := eval vm_compute in (2 ^ k) in change (2 ^ k) with v end; lia.
+Qed.
+
+Lemma text_syls_print syls : forall rest,
+  Forall (fun s => 0 < s < 65536) syls ->
+  text_syls (length syls) (map dec_N syls ++ rest) = Some (syls, rest).
+Proof.
+  induction syls as [|s syls IH]; intros rest H; [reflexivity|].
+  inversion H as [|s0 l0 Hs Hl]; subst.
+  cbn [length map app text_syls].
+  rewrite parse_col_dec_N by (apply column_types_wide; lia).
+  destruct (N.eqb_spec s 0) as [->|_]; [lia|].
+  now rewrite IH.
+Qed.
+
+Lemma rec_tokens_ok r : Forall (fun t => t <> [] /\ ws_free t) (rec_tokens r).
+Proof.
+  assert (HN : forall n, dec_N n <> [] /\ ws_free (dec_N n)).
+  { intros n. split; [apply dec_N_nonempty | apply digits_no_ws, dec_N_digits]. }
+  assert (HZ : forall z, dec_Z z <> [] /\ ws_free (dec_Z z)).
+  { intros z. destruct z; cbn [dec_Z]; try apply HN.
+    split; [discriminate|]. constructor; [reflexivity | apply HN]. }
+  unfold rec_tokens. apply Forall_app. split.
+  - apply Forall_forall. intros t Ht. apply in_map_iff in Ht as [n [<- _]]. apply HN.
+  - repeat constructor; apply HZ.
+Qed.
+
+Lemma text_line_print r : lrec_wf_P r -> lrec_text_P r ->
+  text_line (text_line_of r) = Some (entry_of r).
+Proof.
+  intros W T. unfold text_line.
+  assert (Hascii : Forall (fun b => b < 128) (flat_map (fun t => SP :: t) (rec_tokens r))).
+  { apply Forall_forall. intros b Hb. apply in_flat_map in Hb as [t [Ht Hb]].
+    destruct Hb as [<-|Hb]; [cbv; reflexivity|].
+    assert (Ha : Forall (fun b => b < 128) t).
+    { unfold rec_tokens in Ht. apply in_app_or in Ht as [Ht|Ht].
+      - apply in_map_iff in Ht as [n [<- _]]. apply digits_ascii, dec_N_digits.
+      - cbn [In] in Ht. destruct Ht as [<-|[<-|[<-|[<-|[]]]]]; apply dec_Z_ascii. }
+    rewrite Forall_forall in Ha. now apply Ha. }
+  assert (Hu : utf8_ok (text_line_of r) = true).
+  { unfold text_line_of. apply utf8_ok_app_both; [apply (wf_utf8 r W) | apply utf8_ok_ascii, Hascii]. }
+  rewrite Hu. cbn [negb].
+  destruct (wf_nonempty r W) as (b & t & Hph & Hb).
+  unfold text_line_of. rewrite split_ws_line; [| rewrite Hph; discriminate | apply (wf_nows r W) | apply rec_tokens_ok].
+  rewrite (wf_nchars r W). unfold len_N. rewrite Nat2N.id.
+  unfold rec_tokens. rewrite text_syls_print by apply (wf_syls r W).
+  pose proof (wf_user r W). pose proof (wf_time r W). pose proof (wf_max r W). pose proof (wf_orig r W).
+  pose proof (tx_user r T). pose proof (tx_time r T). pose proof (tx_max r T). pose proof (tx_orig r T).
+  rewrite !dec_Z_nonneg by assumption.
+  destruct column_types_wide as [_ Hc].
+  rewrite (parse_col_dec_N text_freq_ty), (parse_col_dec_N text_time_ty),
+          (parse_col_dec_N text_maxfreq_ty), (parse_col_dec_N text_origfreq_ty)
+    by (apply Hc; lia).
+  reflexivity.
+Qed.
+
+Lemma text_line_of_no_nl r : lrec_wf_P r -> ~ In 10 (text_line_of r) /\ last (text_line_of r) 0 <> 13.
+Proof.
+  intros W. unfold text_line_of, rec_tokens. split.
+  - intros H. apply in_app_or in H as [H|H].
+    + pose proof (wf_nows r W) as Hw. unfold ws_free in Hw. rewrite Forall_forall in Hw.
+      specialize (Hw 10 H). discriminate Hw.
+    + apply in_flat_map in H as [t [Ht H]]. destruct H as [H|H]; [discriminate H|].
+      apply in_app_or in Ht as [Ht|Ht].
+      * apply in_map_iff in Ht as [n [<- _]]. exact (dec_N_no_nl _ H).
+      * cbn [In] in Ht. destruct Ht as [<-|[<-|[<-|[<-|[]]]]]; exact (dec_Z_no_nl _ H).
+  - rewrite flat_map_app. cbn [flat_map]. rewrite app_nil_r.
+    rewrite !app_assoc.
+    match goal with |- last (?a ++ SP :: dec_Z ?z) 0 <> 13 => set (pre := a) end.
+    assert (Hl : forall z, exists d l, dec_Z z = l ++ [d] /\ d <> 13).
+    { intros z. assert (HN : forall n, exists d l, dec_N n = l ++ [d] /\ d <> 13).
+      { intros n. unfold dec_N. cbn [dec_rev rev]. eexists _, _. split; [reflexivity|].
+        intros E. pose proof (N.le_add_r 48 (n mod 10)) as Hle. rewrite E in Hle. lia. }
+      destruct z; cbn [dec_Z]; try apply HN.
+      destruct (HN (N.pos p)) as (d & l & E & Hd). exists d, (45 :: l). rewrite E. split; [reflexivity | exact Hd]. }
+    destruct (Hl (lr_orig r)) as (d & l & E & Hd). rewrite E.
+    change (pre ++ SP :: l ++ [d]) with (pre ++ (SP :: l) ++ [d]). rewrite app_assoc, last_last. exact Hd.
+Qed.
+
+(* ------------------------------------------------------------------ *)
+(* text format: the whole file, for any lifetime the type of the lifetime
+   column holds *)
+
+Lemma print_text_lines lt rs :
+  print_text lt rs = flat_map (fun l => l ++ [10]) (dec_Z lt :: map text_line_of rs).
+Proof.
+  unfold print_text. cbn [flat_map]. rewrite <- app_assoc. cbn [app]. f_equal. f_equal.
+  rewrite flat_map_map. apply flat_map_ext. intros r. apply print_text_rec_eq.
+Qed.
+
+Lemma dec_Z_last z : last (dec_Z z) 0 <> 13.
+Proof.
+  assert (HN : forall n pre, last (pre ++ dec_N n) 0 <> 13).
+  { intros n pre. unfold dec_N. cbn [dec_rev rev]. rewrite app_assoc, last_last.
+    intros E. pose proof (N.le_add_r 48 (n mod 10)) as Hle. rewrite E in Hle. lia. }
+  destruct z; cbn [dec_Z]; try apply (HN _ []). apply (HN _ [45]).
+Qed.
+
+Lemma text_records_print rs :
+  Forall lrec_wf_P rs -> Forall lrec_text_P rs ->
+  text_records (map text_line_of rs) = Some (map entry_of rs).
+Proof.
+  induction rs as [|r rs IH]; intros W T; [reflexivity|].
+  inversion W; inversion T; subst. cbn [map text_records].
+  rewrite text_line_print by assumption. rewrite IH by assumption. reflexivity.
+Qed.
+
+Theorem load_text_with_print lty lt rs :
+  fits_int lty lt ->
+  forallb lrec_wf rs = true -> forallb lrec_text_ok rs = true ->
+  load_text_with lty (print_text lt rs) = Ok (map entry_of rs).
+Proof.
+  intros Hlt W T.
+  assert (WP : Forall lrec_wf_P rs).
+  { apply Forall_forall. intros r Hr. rewrite forallb_forall in W. apply lrec_wf_spec, W, Hr. }
+  assert (TP : Forall lrec_text_P rs).
+  { apply Forall_forall. intros r Hr. rewrite forallb_forall in T. apply lrec_text_ok_spec, T, Hr. }
+  unfold load_text_with. rewrite print_text_lines, split_lines_lines.
+  - rewrite (utf8_ok_ascii _ (dec_Z_ascii lt)). cbn [negb].
+    destruct (parse_num lty (dec_Z lt)) eqn:E; [|exfalso; exact (parse_num_dec_Z lty lt Hlt E)].
+    now rewrite text_records_print.
+  - constructor; [split; [apply dec_Z_no_nl | apply dec_Z_last]|].
+    apply Forall_forall. intros l Hl. apply in_map_iff in Hl as [r [<- Hr]].
+    rewrite Forall_forall in WP. apply text_line_of_no_nl, WP, Hr.
+Qed.
+
+(* the lifetime column of the current source holds every 64-bit integer, in
+   particular every value of the C int the legacy engine kept *)
+Lemma lifetime_ty_wide lt :
+  (-9223372036854775808 <= lt < 9223372036854775808)%Z -> fits_int text_lifetime_ty lt.
+Proof.
+  unfold fits_int. cbn [text_lifetime_ty fst snd].
+  match goal with |- context [2 ^ ?k] => let v := eval vm_compute in (2 ^ k) in change (2 ^ k) with v end.
+  cbn [Z.of_N]. lia.
+Qed.
+
+Theorem load_text_print lt rs :
+  (-9223372036854775808 <= lt < 9223372036854775808)%Z ->
+  forallb lrec_wf rs = true -> forallb lrec_text_ok rs = true ->
+  load_text (print_text lt rs) = Ok (map entry_of rs).
+Proof. intros H. apply load_text_with_print, lifetime_ty_wide, H. Qed.
+
+(* ------------------------------------------------------------------ *)
+(* binary format: one record *)
+
+Lemma nth_N_app_r {A} (a b : list A) j : nth_N (a ++ b) (len_N a + j) = nth_N b j.
+Proof.
+  unfold nth_N, len_N. rewrite N2Nat.inj_add, Nat2N.id.
+  rewrite nth_error_app2 by lia. f_equal. lia.
+Qed.
+
+Lemma byte_or0_app_r a b j : byte_or0 (a ++ b) (len_N a + j) = byte_or0 b j.
+Proof. unfold byte_or0. now rewrite nth_N_app_r. Qed.
+
+Lemma byte_or0_app_0 a b : byte_or0 (a ++ b) (len_N a) = byte_or0 b 0.
+Proof. rewrite <- (N.add_0_r (len_N a)) at 1. apply byte_or0_app_r. Qed.
+
+Lemma rd_u32le_at pre b0 b1 b2 b3 rest :
+  rd_u32le (pre ++ b0 :: b1 :: b2 :: b3 :: rest) (len_N pre) = b0 + 256 * b1 + 65536 * b2 + 16777216 * b3.
+Proof. unfold rd_u32le. rewrite byte_or0_app_0, !byte_or0_app_r. reflexivity. Qed.
+
+Lemma rd_u16le_at pre b0 b1 rest :
+  rd_u16le (pre ++ b0 :: b1 :: rest) (len_N pre) = b0 + 256 * b1.
+Proof. unfold rd_u16le. rewrite byte_or0_app_0, !byte_or0_app_r. reflexivity. Qed.
+
+Lemma le16_value w : w < 65536 -> w mod 256 + 256 * ((w / 256) mod 256) = w.
+Proof.
+  intros H. rewrite (N.mod_small (w / 256)) by (apply N.div_lt_upper_bound; lia).
+  pose proof (N.div_mod w 256). lia.
+Qed.
+
+Lemma le32_value w : w < 4294967296 ->
+  w mod 256 + 256 * ((w / 256) mod 256) + 65536 * ((w / 65536) mod 256) + 16777216 * ((w / 16777216) mod 256) = w.
+Proof.
+  intros H.
+  rewrite (N.mod_small (w / 16777216)) by (apply N.div_lt_upper_bound; lia).
+  pose proof (N.div_mod w 256) as H1.
+  pose proof (N.div_mod (w / 256) 256) as H2.
+  pose proof (N.div_mod (w / 65536) 256) as H3.
+  replace (w / 256 / 256) with (w / 65536) in H2 by (rewrite N.div_div by lia; reflexivity).
+  replace (w / 65536 / 256) with (w / 16777216) in H3 by (rewrite N.div_div by lia; reflexivity).
+  lia.
+Qed.
+
+Lemma i32_word_range z : (-2147483648 <= z < 2147483648)%Z -> i32_word z < 4294967296.
+Proof. intros H. unfold i32_word. destruct (Z.ltb_spec z 0); lia. Qed.
+
+Lemma i32_word_negative z : (-2147483648 <= z < 2147483648)%Z -> i32_negative (i32_word z) = (z <? 0)%Z.
+Proof.
+  intros H. unfold i32_negative, i32_word.
+  destruct (Z.ltb_spec z 0); [apply N.leb_le | apply N.leb_gt]; lia.
+Qed.
+
+Lemma i32_word_nonneg z : (0 <= z)%Z -> i32_word z = Z.to_N z.
+Proof. intros H. unfold i32_word. destruct (Z.ltb_spec z 0); [lia | reflexivity]. Qed.
+
+Lemma bin_syls_at ss : forall pre post,
+  Forall (fun s => 0 < s < 65536) ss ->
+  bin_syls (length ss) (pre ++ flat_map le16 ss ++ post) (len_N pre) = Some ss.
+Proof.
+  induction ss as [|s ss IH]; intros pre post H; [reflexivity|].
+  inversion H as [|s0 l0 Hs Hl]; subst.
+  assert (E : pre ++ flat_map le16 (s :: ss) ++ post =
+              pre ++ s mod 256 :: (s / 256) mod 256 :: (flat_map le16 ss ++ post)).
+  { cbn [flat_map]. unfold le16 at 1. rewrite <- app_assoc. reflexivity. }
+  rewrite E. cbn [length bin_syls]. cbv zeta.
+  rewrite !rd_u16le_at, le16_value by lia.
+  destruct (N.eqb_spec s 0) as [->|_]; [lia|].
+  replace (len_N pre + 2) with (len_N (pre ++ [s mod 256; (s / 256) mod 256]))
+    by (unfold len_N; rewrite app_length; cbn [length]; lia).
+  replace (pre ++ s mod 256 :: (s / 256) mod 256 :: flat_map le16 ss ++ post)
+    with ((pre ++ [s mod 256; (s / 256) mod 256]) ++ flat_map le16 ss ++ post)
+    by (rewrite <- app_assoc; reflexivity).
+  now rewrite IH.
+Qed.
+
+Lemma len_flat_le16 ss : len_N (flat_map le16 ss) = 2 * len_N ss.
+Proof.
+  unfold len_N. induction ss as [|s ss IH]; [reflexivity|].
+  cbn [flat_map]. rewrite app_length. cbn [length le16]. lia.
+Qed.
+
+Definition bin_phrase_field (r : lrec) : list N :=
+  if lr_deleted r then match lr_phrase r with [] => [] | _ :: t => 0 :: t end else lr_phrase r.
+
+Definition bin_head (r : lrec) : list N :=
+  le32 (i32_word (lr_user r)) ++ le32 (i32_word (lr_time r)) ++ le32 (i32_word (lr_max r)) ++ le32 (i32_word (lr_orig r)).
+
+Lemma print_bin_rec_eq r :
+  print_bin_rec r =
+  ((bin_head r ++ [len_N (lr_syls r)]) ++ flat_map le16 (lr_syls r)) ++ [len_N (lr_phrase r)] ++
+  bin_phrase_field r ++
+  zeros (BIN_FIELD_SIZE - len_N (bin_head r ++ [len_N (lr_syls r)] ++ flat_map le16 (lr_syls r) ++ [len_N (lr_phrase r)] ++ bin_phrase_field r)).
+Proof.
+  unfold print_bin_rec, bin_head, bin_phrase_field. repeat rewrite <- app_assoc. reflexivity.
+Qed.
+
+Lemma len_bin_phrase_field r : len_N (bin_phrase_field r) = len_N (lr_phrase r).
+Proof. unfold bin_phrase_field. destruct (lr_deleted r); [|reflexivity]. destruct (lr_phrase r); reflexivity. Qed.
+
+Lemma len_bin_head r : len_N (bin_head r) = 16.
+Proof. reflexivity. Qed.
+
+Lemma len_N_app {A} (a b : list A) : len_N (a ++ b) = len_N a + len_N b.
+Proof. unfold len_N. rewrite app_length. lia. Qed.
+
+Lemma len_N_single {A} (x : A) : len_N [x] = 1.
+Proof. reflexivity. Qed.
+
+Lemma len_print_bin_rec r : lrec_wf_P r -> len_N (print_bin_rec r) = BIN_FIELD_SIZE.
+Proof.
+  intros W. pose proof (wf_size r W) as Hs. rewrite print_bin_rec_eq.
+  match goal with |- context [zeros (BIN_FIELD_SIZE - ?k)] => set (bl := k) end.
+  assert (Hb : bl = bin_syl_offset + 2 * len_N (lr_syls r) + 1 + len_N (lr_phrase r)).
+  { unfold bl. rewrite !len_N_app, len_flat_le16, len_bin_phrase_field, len_bin_head, !len_N_single.
+    change bin_syl_offset with 17. lia. }
+  rewrite !len_N_app, len_flat_le16, len_bin_phrase_field, len_bin_head, !len_N_single.
+  unfold zeros, len_N at 3. rewrite repeat_length, N2Nat.id.
+  change bin_syl_offset with 17 in *. lia.
+Qed.
+
+Lemma firstn_app_len {A} (a b : list A) : firstn (length a) (a ++ b) = a.
+Proof. rewrite firstn_app, Nat.sub_diag, firstn_all. cbn [firstn]. apply app_nil_r. Qed.
+
+Lemma skipn_app_len {A} (a b : list A) : skipn (length a) (a ++ b) = b.
+Proof. rewrite skipn_app, Nat.sub_diag, skipn_all. reflexivity. Qed.
+
+Lemma bin_record_print checked r : lrec_wf_P r ->
+  bin_record checked (print_bin_rec r) = if lr_dead r then RSkip else RPush (entry_of r).
+Proof.
+  intros W.
+  pose proof (wf_user r W) as Hu. pose proof (wf_time r W) as Ht.
+  pose proof (wf_max r W) as Hm. pose proof (wf_orig r W) as Ho.
+  pose proof (wf_size r W) as Hsz. destruct (wf_nonempty r W) as (b0 & pt & Hph & Hb0).
+  assert (Hplen : 1 <= len_N (lr_phrase r)) by (rewrite Hph; unfold len_N; cbn [length]; lia).
+  change bin_syl_offset with 17 in *. change BIN_FIELD_SIZE with 125 in *.
+  unfold bin_record. change bin_syl_offset with 17. change BIN_FIELD_SIZE with 125.
+  (* the four integers *)
+  assert (Hw : forall buf, 
+    rd_u32le (bin_head r ++ buf) 0 = i32_word (lr_user r) /\ rd_u32le (bin_head r ++ buf) 4 = i32_word (lr_time r) /\
+    rd_u32le (bin_head r ++ buf) 8 = i32_word (lr_max r) /\ rd_u32le (bin_head r ++ buf) 12 = i32_word (lr_orig r)).
+  { intros buf. unfold bin_head. repeat rewrite <- app_assoc. unfold le32. cbn [app].
+    repeat split.
+    - match goal with |- rd_u32le (?a :: ?b :: ?c :: ?d :: ?rest) 0 = _ =>
+        change (rd_u32le ([] ++ a :: b :: c :: d :: rest) (len_N (@nil N)) = i32_word (lr_user r)) end.
+      rewrite rd_u32le_at. apply le32_value, i32_word_range, Hu.
+    - match goal with |- rd_u32le (?a :: ?b :: ?c :: ?d :: ?rest) 4 = _ =>
+        change (rd_u32le ([a; b; c; d] ++ rest) (len_N [a; b; c; d]) = i32_word (lr_time r)) end.
+      rewrite rd_u32le_at. apply le32_value, i32_word_range, Ht.
+    - match goal with |- rd_u32le (?a :: ?b :: ?c :: ?d :: ?e :: ?f :: ?g :: ?h :: ?rest) 8 = _ =>
+        change (rd_u32le ([a; b; c; d; e; f; g; h] ++ rest) (len_N [a; b; c; d; e; f; g; h]) = i32_word (lr_max r)) end.
+      rewrite rd_u32le_at. apply le32_value, i32_word_range, Hm.
+    - match goal with |- rd_u32le (?a :: ?b :: ?c :: ?d :: ?e :: ?f :: ?g :: ?h :: ?i :: ?j :: ?k :: ?l :: ?rest) 12 = _ =>
+        change (rd_u32le ([a; b; c; d; e; f; g; h; i; j; k; l] ++ rest) (len_N [a; b; c; d; e; f; g; h; i; j; k; l]) = i32_word (lr_orig r)) end.
+      rewrite rd_u32le_at. apply le32_value, i32_word_range, Ho. }
+  rewrite print_bin_rec_eq.
+  match goal with |- context [zeros ?k] => set (Z := zeros k) end.
+  set (n := len_N (lr_syls r)). set (pl := len_N (lr_phrase r)).
+  set (buf := ((bin_head r ++ [n]) ++ flat_map le16 (lr_syls r)) ++ [pl] ++ bin_phrase_field r ++ Z).
+  assert (Hbuf1 : buf = bin_head r ++ ([n] ++ flat_map le16 (lr_syls r) ++ [pl] ++ bin_phrase_field r ++ Z)).
+  { unfold buf. repeat rewrite <- app_assoc. reflexivity. }
+  destruct (Hw ([n] ++ flat_map le16 (lr_syls r) ++ [pl] ++ bin_phrase_field r ++ Z)) as (W0 & W4 & W8 & W12).
+  rewrite <- Hbuf1 in W0, W4, W8, W12. rewrite W0, W4, W8, W12.
+  rewrite !i32_word_negative by assumption.
+  unfold lr_dead.
+  destruct (Z.ltb_spec (lr_user r) 0) as [Hun|Hun]; [cbn [orb]; now rewrite !orb_true_r|].
+  destruct (Z.ltb_spec (lr_time r) 0) as [Htn|Htn]; [cbn [orb]; now rewrite !orb_true_r|].
+  destruct (Z.ltb_spec (lr_max r) 0) as [Hmn|Hmn]; [cbn [orb]; now rewrite !orb_true_r|].
+  destruct (Z.ltb_spec (lr_orig r) 0) as [Hon|Hon]; [cbn [orb]; now rewrite !orb_true_r|].
+  cbn [orb]. rewrite !orb_false_r.
+  (* the length byte *)
+  assert (Hlen : byte_or0 buf bin_len_offset = n).
+  { rewrite Hbuf1. change bin_len_offset with (len_N (bin_head r)). rewrite byte_or0_app_0. reflexivity. }
+  rewrite Hlen.
+  assert (Hpre2 : len_N ((bin_head r ++ [n]) ++ flat_map le16 (lr_syls r)) = 17 + 2 * n).
+  { rewrite !len_N_app, len_flat_le16, len_bin_head. unfold len_N at 1. cbn [length]. fold n. lia. }
+  (* guards of the fixed code *)
+  destruct (N.leb_spec 125 (17 + 2 * n + 1)) as [Hbad|_]; [fold pl in Hsz; lia|]. rewrite andb_false_r.
+  (* first phrase byte *)
+  assert (Hfirst : byte_at buf (17 + 2 * n + 1) = Some (if lr_deleted r then 0 else b0)).
+  { unfold byte_at, buf. rewrite <- Hpre2. cbn [app]. rewrite nth_N_app_r.
+    unfold bin_phrase_field. rewrite Hph. destruct (lr_deleted r); reflexivity. }
+  rewrite Hfirst.
+  destruct (lr_deleted r) eqn:Hdel; [reflexivity|].
+  destruct (N.eqb_spec b0 0) as [->|_]; [contradiction|].
+  (* syllables *)
+  assert (Hsyls : bin_syls (N.to_nat n) buf 17 = Some (lr_syls r)).
+  { unfold n, len_N. rewrite Nat2N.id. unfold buf. rewrite <- (app_assoc (bin_head r ++ [len_N (lr_syls r)])).
+    change 17 with (len_N (bin_head r ++ [len_N (lr_syls r)])). apply bin_syls_at, (wf_syls r W). }
+  rewrite Hsyls.
+  assert (Hbytes : byte_or0 buf (17 + 2 * n) = pl).
+  { unfold buf. rewrite <- Hpre2. cbn [app]. rewrite byte_or0_app_0. reflexivity. }
+  rewrite Hbytes.
+  destruct (N.ltb_spec 125 (17 + 2 * n + pl + 1)) as [Hbad|_]; [lia|]. rewrite andb_false_r.
+  (* the phrase *)
+  assert (Hslice : slice buf (17 + 2 * n + 1) (17 + 2 * n + pl + 1) = lr_phrase r).
+  { unfold slice.
+    replace (17 + 2 * n + pl + 1 - (17 + 2 * n + 1)) with pl by lia.
+    assert (Hb2 : buf = (((bin_head r ++ [n]) ++ flat_map le16 (lr_syls r)) ++ [pl]) ++ lr_phrase r ++ Z).
+    { unfold buf, bin_phrase_field. rewrite Hdel. repeat rewrite <- app_assoc. reflexivity. }
+    assert (Hl2 : N.to_nat (17 + 2 * n + 1) = length (((bin_head r ++ [n]) ++ flat_map le16 (lr_syls r)) ++ [pl])).
+    { rewrite app_length. cbn [length]. unfold len_N in Hpre2. lia. }
+    rewrite Hb2, Hl2, skipn_app_len. unfold pl, len_N. rewrite Nat2N.id. apply firstn_app_len. }
+  rewrite Hslice, (wf_utf8 r W).
+  unfold entry_of. rewrite !i32_word_nonneg by assumption. reflexivity.
+Qed.
+
+(* ------------------------------------------------------------------ *)
+(* binary format: the whole file *)
+
+Definition live_entries (rs : list lrec) : list uentry :=
+  map entry_of (filter (fun r => negb (lr_dead r)) rs).
+
+Lemma bin_loop_print checked rs : forall fuel acc,
+  Forall lrec_wf_P rs -> (length rs < fuel)%nat ->
+  bin_loop checked fuel (flat_map print_bin_rec rs) acc = Ok (rev acc ++ live_entries rs).
+Proof.
+  induction rs as [|r rs IH]; intros fuel acc W Hf.
+  - destruct fuel as [|k]; [inversion Hf|]. cbn [flat_map bin_loop]. unfold live_entries. cbn [filter map].
+    now rewrite app_nil_r.
+  - destruct fuel as [|k]; [inversion Hf|]. inversion W as [|r0 rs0 Wr Wrs]; subst.
+    cbn [flat_map bin_loop].
+    pose proof (len_print_bin_rec r Wr) as Hl.
+    destruct (N.ltb_spec (len_N (print_bin_rec r ++ flat_map print_bin_rec rs)) BIN_FIELD_SIZE) as [Hlt|_].
+    { rewrite len_N_app in Hlt. lia. }
+    assert (Hn : N.to_nat BIN_FIELD_SIZE = length (print_bin_rec r)).
+    { unfold len_N in Hl. lia. }
+    rewrite Hn, firstn_app_len, skipn_app_len, bin_record_print by exact Wr.
+    unfold live_entries. cbn [filter].
+    cbn [length] in Hf.
+    destruct (lr_dead r); cbn [negb].
+    + apply IH; [exact Wrs | lia].
+    + rewrite IH; [|exact Wrs | lia]. cbn [rev map]. now rewrite <- app_assoc.
+Qed.
+
+Lemma len_flat_print_bin rs : Forall lrec_wf_P rs ->
+  len_N (flat_map print_bin_rec rs) = BIN_FIELD_SIZE * len_N rs.
+Proof.
+  induction rs as [|r rs IH]; intros W; [reflexivity|]. inversion W; subst.
+  cbn [flat_map]. rewrite len_N_app, len_print_bin_rec, IH by assumption.
+  unfold len_N. cbn [length]. lia.
+Qed.
+
+(* load_bin (print_bin lifetime rs) = the live records in order; deleted records
+   and records with a negative integer are skipped.  Holds for every lifetime
+   and for the pinned as well as the bounds-checked loader. *)
+Theorem load_bin_with_print checked lt rs :
+  forallb lrec_wf rs = true ->
+  load_bin_with checked (print_bin lt rs) = Ok (live_entries rs).
+Proof.
+  intros W.
+  assert (WP : Forall lrec_wf_P rs).
+  { apply Forall_forall. intros r Hr. rewrite forallb_forall in W. apply lrec_wf_spec, W, Hr. }
+  unfold load_bin_with, print_bin.
+  set (lw := firstn (N.to_nat bin_lifetime_bytes) (le32 (i32_word lt) ++ zeros 4)).
+  assert (Hlw : len_N lw = bin_lifetime_bytes) by reflexivity.
+  set (recs := flat_map print_bin_rec rs).
+  assert (Hlen : len_N (BIN_HASH_SIG ++ lw ++ recs) = bin_header_len + BIN_FIELD_SIZE * len_N rs).
+  { rewrite !len_N_app, Hlw. unfold recs. rewrite len_flat_print_bin by exact WP.
+    unfold bin_header_len, sig_len. lia. }
+  destruct (N.ltb_spec (len_N (BIN_HASH_SIG ++ lw ++ recs)) sig_len) as [Hlt|_].
+  { rewrite Hlen in Hlt. change bin_header_len with 8 in Hlt. change sig_len with 4 in Hlt. lia. }
+  replace (N.to_nat sig_len) with (length BIN_HASH_SIG) by reflexivity.
+  rewrite firstn_app_len.
+  replace (list_eqb N.eqb BIN_HASH_SIG BIN_HASH_SIG) with true by reflexivity. cbn [negb].
+  destruct (N.ltb_spec (len_N (BIN_HASH_SIG ++ lw ++ recs)) bin_header_len) as [Hlt|_].
+  { rewrite Hlen in Hlt. lia. }
+  replace (N.to_nat bin_header_len) with (length (BIN_HASH_SIG ++ lw)) by reflexivity.
+  rewrite app_assoc, skipn_app_len.
+  subst recs. rewrite bin_loop_print; [reflexivity | exact WP |].
+  unfold bin_fuel. rewrite <- app_assoc, Hlen.
+  change bin_header_len with 8. change BIN_FIELD_SIZE with 125.
+  assert (E : (8 + 125 * len_N rs) / 125 = len_N rs).
+  { rewrite N.mul_comm, N.div_add by lia. reflexivity. }
+  rewrite E. unfold len_N. rewrite Nat2N.id. lia.
+Qed.
+
+Theorem load_bin_print lt rs :
+  forallb lrec_wf rs = true -> load_bin (print_bin lt rs) = Ok (live_entries rs).
+Proof. apply load_bin_with_print. Qed.
+
+(* the loader as the start-up code uses it: binary first, text when that fails *)
+Theorem load_uhash_print_bin lt rs :
+  forallb lrec_wf rs = true -> load_uhash (print_bin lt rs) = Ok (live_entries rs).
+Proof. intros W. unfold load_uhash, load_uhash_with. now rewrite load_bin_with_print. Qed.
+
+(* a text file does not start with the binary signature *)
+Lemma load_bin_of_text checked lt rs : load_bin_with checked (print_text lt rs) = Err E_INVALID_DATA.
+Proof.
+  unfold load_bin_with.
+  destruct (len_N (print_text lt rs) <? sig_len); [reflexivity|].
+  assert (H : list_eqb N.eqb (firstn (N.to_nat sig_len) (print_text lt rs)) BIN_HASH_SIG = false).
+  { unfold print_text.
+    assert (Hd : exists d t, dec_Z lt = d :: t /\ d <> 67).
+    { destruct lt; cbn [dec_Z].
+      - pose proof (dec_N_digits (Z.to_N 0)) as Hd. destruct (dec_N (Z.to_N 0)) as [|d t] eqn:E; [now apply dec_N_nonempty in E|].
+        exists d, t. split; [reflexivity|]. inversion Hd; subst. match goal with Hx : is_digit d = true |- _ => apply is_digit_range in Hx; lia end.
+      - pose proof (dec_N_digits (Z.to_N (Z.pos p))) as Hd. destruct (dec_N (Z.to_N (Z.pos p))) as [|d t] eqn:E; [now apply dec_N_nonempty in E|].
+        exists d, t. split; [reflexivity|]. inversion Hd; subst. match goal with Hx : is_digit d = true |- _ => apply is_digit_range in Hx; lia end.
+      - exists 45, (dec_N (N.pos p)). split; [reflexivity | lia]. }
+    destruct Hd as (d & t & E & Hd). rewrite E.
+    change (N.to_nat sig_len) with 4%nat. change BIN_HASH_SIG with [67; 66; 105; 72].
+    cbn [app firstn list_eqb]. destruct (N.eqb_spec d 67); [contradiction | reflexivity]. }
+  rewrite H. reflexivity.
+Qed.
+
+Theorem load_uhash_print_text lt rs :
+  (-9223372036854775808 <= lt < 9223372036854775808)%Z ->
+  forallb lrec_wf rs = true -> forallb lrec_text_ok rs = true ->
+  load_uhash (print_text lt rs) = Ok (map entry_of rs).
+Proof.
+  intros Hlt W T. unfold load_uhash, load_uhash_with. rewrite load_bin_of_text.
+  apply load_text_with_print; [apply lifetime_ty_wide, Hlt | exact W | exact T].
+Qed.
